@@ -1,6 +1,368 @@
 import RV.Json
+import RV.Model.TrafficX
+import RV.Oracle.TrafficX
+import RV.Drv.Traffic
+import RV.Drv.Gateway
+import RV.Drv.Ingress
+import RV.Drv.Custom
+/-!
+Driver for suite `trafficx`: the real `trafficrouting.Manager` over the real providers
+(harness/suite_trafficx.go).
+
+ops
+* `call`  — one Manager call from one abstract state.
+    in   `{call, ctx, net, mem, failAt, trace}`
+    impl `{done, err, net, mem, touched, recheck, writes}` | `{panic:true}` | `{err}` (call `initialize`)
+* `grace` — `GetGraceSeconds`.  in `{refs:[int], dflt}`, impl `int`.
+-/
 namespace RV.Drv.TrafficX
-open Lean RV
-/-- stub: replaced by the slice that owns this suite -/
-def handle : Handler := fun _ _ _ => .error "suite not built yet"
+open Lean RV RV.TrafficX RV.Traffic RV.Oracle.TrafficX
+
+/-! ### fixed names of the harness -/
+
+def stableName : String := "svc"
+/-- the canary Service name of a rollout that generates one (normalisation of the route is judged w.r.t. it) -/
+def trafficCanary : String := "svc-canary"
+def ingName : String := "ing"
+
+/-! ### JSON in -/
+
+def pairsOf (j : Json) (k : String) : R (List (String × String)) := do
+  (← jarr (jgetD j k (arrJ []))).mapM fun p => do
+    match ← jarr p with
+    | [a, b] => do pure (← jstr a, ← jstr b)
+    | _ => .error "pair expected"
+
+def rhmOf (j : Json) : R (Option RV.Custom.HeaderMod) :=
+  match jopt j "rhm" with
+  | none => .ok none
+  | some h => do
+    let rem ← (← jarr (jgetD h "remove" (arrJ []))).mapM jstr
+    return some { set := ← pairsOf h "set", add := ← pairsOf h "add", remove := rem }
+
+def stratOf (j : Json) : R Strat := do
+  return { traffic := ← fOptStr j "traffic",
+           mts := ← jlistM RV.Drv.Gateway.umatchOf (← jget j "matches"),
+           rhm := ← rhmOf j }
+
+structure ProvIn where
+  custom : Bool
+  ingress : Option String
+  gateway : Bool
+
+def provOf (j : Json) : R ProvIn := do
+  return { custom := ← fBool j "custom", ingress := ← fOptStr j "ingress", gateway := ← fBool j "gateway" }
+
+def classOpt (s : String) : Option RV.Ingress.Class :=
+  match RV.Drv.Ingress.classOf s with
+  | .ok c => some c
+  | .error _ => none
+
+def ctxOf (j : Json) : R (XCtx Strat × ProvIn) := do
+  let hk ← (match jopt j "hasRevKey" with | none => pure true | some b => jbool b)
+  let extra ← (← fArrD j "extraGrace").mapM jint
+  let c : XCtx Strat :=
+    { hasRef := ← fBool j "hasRef", grace := ← fInt j "grace", extraGrace := extra, defGrace := ← fInt j "defGrace",
+      strategy := ← stratOf j, disableGen := ← fBool j "disableGen", onlyTR := ← fBool j "onlyTR",
+      stableRev := ← fStr j "stableRev", canaryRev := ← fStr j "canaryRev",
+      lastUpdate := RV.Drv.Traffic.ageOf (← fStr j "lastUpdate"), hasRevKey := hk }
+  return (c, ← provOf (← jget j "prov"))
+
+def pcfgOf (c : XCtx Strat) (p : ProvIn) : PCfg :=
+  { custom := p.custom, ingress := p.ingress.map classOpt, gateway := p.gateway,
+    stable := stableName, canary := canaryServiceName stableName c.onlyTR c.disableGen,
+    ingName := ingName, codec := RV.Drv.Custom.codec }
+
+structure NetIn where
+  net : XNet CNet
+  refs : List RV.Drv.Custom.RefIn
+
+def worldOf (j : Json) : R RV.Ingress.World := do
+  let stable ← match jopt j "stable" with
+    | none => pure none
+    | some v => do pure (some (← RV.Drv.Ingress.ingressOf v))
+  let canary ← match jopt j "canary" with
+    | none => pure none
+    | some v => do pure (some (← RV.Drv.Ingress.canaryOf v))
+  return { stable := stable, canary := canary }
+
+def netOf (canary : String) (j : Json) : R NetIn := do
+  let refs ← (← fArrD j "custom").mapM (RV.Drv.Custom.refOfJson stableName canary)
+  let st : List RV.Custom.Ref := refs.map fun r => ⟨r.script, r.obj⟩
+  let w ← worldOf (← jget j "ing")
+  let route ← RV.Drv.Gateway.optRulesOf j "route"
+  return { net := { stableExists := ← fBool j "stableExists", stableSel := ← fOptStr j "stableSel",
+                    canarySvc := ← fOptStr j "canarySvc", g := (st, (w, route)) },
+           refs := refs }
+
+/-! ### JSON out -/
+
+def worldJ (w : RV.Ingress.World) : Json :=
+  mkObj [("stable", optJ RV.Drv.Ingress.ingressJ w.stable), ("canary", optJ RV.Drv.Ingress.canaryJ w.canary)]
+
+def netJ (kinds : List String) (n : XNet CNet) : Json :=
+  mkObj [("stableExists", boolJ n.stableExists), ("stableSel", optJ strJ n.stableSel),
+         ("canarySvc", optJ strJ n.canarySvc),
+         ("custom", arrJ ((kinds.zip n.g.1).map fun (k, r) =>
+            mkObj [("kind", strJ k), ("obj", RV.Drv.Custom.optObjToJson r.obj)])),
+         ("ing", worldJ n.g.2.1),
+         ("route", optJ RV.Drv.Gateway.rulesJ n.g.2.2)]
+
+/-- `bare`: the stable Service has no selector entry besides the revision label — no Manager call changes that -/
+def outJ (kinds : List String) (a0 : Api) (bare : Bool) (o : XOut CNet) : Json :=
+  if o.panic then mkObj [("panic", boolJ true)]
+  else mkObj [("done", boolJ o.done), ("err", boolJ o.err),
+              ("net", if bare && o.net.stableExists then (netJ kinds o.net).setObjVal! "stableBare" (boolJ true) else netJ kinds o.net),
+              ("mem", RV.Drv.Traffic.memToJson o.mem), ("touched", boolJ o.touched), ("recheck", boolJ o.recheck),
+              ("writes", arrJ (o.writes.map strJ)), ("readFailed", boolJ (readFailed a0 o.a))]
+
+/-- the implementation's answer, read back for the oracles -/
+def outOf (canary : String) (j : Json) : R (XOut CNet) := do
+  let n ← netOf canary (← jget j "net")
+  return { done := ← fBool j "done", err := ← fBool j "err", net := n.net,
+           mem := ← RV.Drv.Traffic.memOfJson (← jget j "mem"), touched := ← fBool j "touched",
+           recheck := ← fBool j "recheck", writes := ← (← fArrD j "writes").mapM jstr, a := Api.ok }
+
+/-! ### the model run -/
+
+def runCall (call : String) (P : Option (Provider Strat CNet)) (c : XCtx Strat) (b : Api) (n : XNet CNet) (m : Mem)
+    (bare : Bool) : Option (XOut CNet) :=
+  match call with
+  | "patchStableService" => some (patchStableServiceX c b n m)
+  | "restoreStableService" => some (restoreStableServiceX c b n m)
+  | "restoreGateway" => some (restoreGatewayX P c b n m)
+  | "removeCanaryService" => some (removeCanaryServiceX c b n m)
+  | "finalisingTrafficRouting" => some (finalisingTrafficRoutingX P c b n m)
+  | "doTrafficRouting" => some (doTrafficRoutingB stratOps P c b n m bare)
+  | "routeAllToNew" => some (routeAllToNewX stratOps P c b n m)
+  | _ => none
+
+/-- is every script execution of this call inside the shapes the hand translations cover? -/
+def shapesModelled (p : PCfg) (refs : List RV.Drv.Custom.RefIn) (ss : List RV.Custom.Strategy) : Bool :=
+  !p.custom || refs.all fun r =>
+    match r.obj with
+    | none => true
+    | some o =>
+      let d := p.codec.dec (RV.Custom.origOf (RV.Custom.storeIfAbsent p.codec o))
+      ss.all fun s => s.mts.all RV.Drv.Custom.matchSupported && r.supported d s
+
+/-! ### comparing states at the JSON level (the custom refs carry functions) -/
+
+def sameG (kinds : List String) (a b : XNet CNet) : Bool :=
+  (netJ kinds { a with stableSel := none, canarySvc := none, stableExists := true }).compress ==
+  (netJ kinds { b with stableSel := none, canarySvc := none, stableExists := true }).compress
+
+def sameNet (kinds : List String) (a b : XNet CNet) : Bool := (netJ kinds a).compress == (netJ kinds b).compress
+
+def sizeTag (pre : String) (n : Nat) : String := pre ++ "=" ++ (if n ≥ 4 then "4+" else toString n)
+
+def handleCall (inp impl : Json) : R OpResult := do
+  let call ← fStr inp "call"
+  let (c, pin) ← ctxOf (← jget inp "ctx")
+  let p := pcfgOf c pin
+  let nin ← netOf p.canary (← jget inp "net")
+  let n := nin.net
+  let kinds := nin.refs.map (·.kind)
+  let m ← RV.Drv.Traffic.memOfJson (← jget inp "mem")
+  let b : Api := { w := ← fOptNat inp "failAt", r := ← fOptNat inp "failGet" }
+  let P := mkProvider p
+  let trace := jgetD inp "trace" .null
+  let streak0 ← (match jopt trace "streak" with | none => pure 0 | some v => jnat v)
+  -- a round made while a grace period is still running (or under an injected fault) is not a round of the count
+  let waiting := c.lastUpdate == .fresh || m.patchService == .fresh || m.restoreService == .fresh ||
+    m.restoreGateway == .fresh || m.removeCanaryService == .fresh || m.updateRoute == .fresh || b.w.isSome || b.armed
+  let streak := if waiting then 0 else streak0
+  -- the hypotheses of `doTRX_converges`: the stable Service exists and the revisions are known
+  let healthy := n.stableExists && (c.noGen || (c.stableRev != "" && c.canaryRev != ""))
+  -- `doTRX_converges`: settled within (the provider's bound) + 1 further rounds; the bounds of the members add up
+  -- (`gateway_lawful` 1, `ingress_lawful` 2, `custom_lawful` 1, `composite_pair_lawful`)
+  let provBound := (if pin.custom then 1 else 0) + (match pin.ingress with | some _ => 2 | none => 0) +
+    (if pin.gateway then 1 else 0)
+  let prevDone ← (match jopt trace "prevDone" with | none => pure false | some v => jbool v)
+  let pristine ← (match jopt trace "pristine" with | none => pure false | some v => jbool v)
+  let s := c.strategy
+  let sAll := stratOps.routeAll s
+  -- region of the FIXED finding `selectorlessStable` (`RV.TrafficX.refusesBare`): the stable Service carries no
+  -- selector at all and `DoTrafficRouting` is about to create the canary Service from it — `createCanaryService`
+  -- returns an error and nothing is written (`selectorless_refused`; before the repair it assigned into the nil
+  -- selector map and panicked).  Judged at full strength: a panic there fails `x_no_panic` like anywhere else, and
+  -- the regression oracle `x_selectorless_refused` wants the error with everything left as it was.
+  let stableBare ← (match jopt (← jget inp "net") "stableBare" with | none => pure false | some v => jbool v)
+  let rBare := call == "doTrafficRouting" && refusesBare stratOps c b n stableBare
+  -- region of the FIXED finding `sameServiceGateway`: no canary Service of its own (the providers get the stable
+  -- name twice) together with a Gateway API ref — `newNetworkProvider` returns an error (`gatewayRefused`), no
+  -- Manager call touches a provider object (`sameService_refused`).  No oracle is weakened there any more.
+  let rSame := gatewayRefused p
+  -- the C13 theorems speak about routes of reachable shape (`inv`): an arbitrary route that mentions the canary
+  -- Service in other ways (random stream) is outside their hypothesis
+  let gOutside := pin.gateway && !rSame && (match n.g.2.2 with
+    | some rules => !RV.Oracle.C13.inv ⟨p.stable, p.canary⟩ rules
+    | none => false)
+  let pj : PCfg := if gOutside then { p with gateway := false } else p
+  let step := isStep stratOps s
+  -- tags common to all calls
+  let provTag := (if pin.custom then "C" else "") ++ (match pin.ingress with | some _ => "I" | none => "") ++
+                 (if pin.gateway then "G" else "")
+  let mut tags : List String :=
+    [s!"call:{call}", s!"prov:{if provTag == "" then "none" else provTag}",
+     if s.traffic.isSome && !s.mts.isEmpty then "step:weight+matches" else if s.traffic.isSome then "step:weight"
+       else if !s.mts.isEmpty then "step:matches" else "step:none",
+     s!"grace:{c.graceSec}", s!"lastUpdate:{repr c.lastUpdate}"] ++
+    (match pin.ingress with | some cls => [s!"class:{cls}"] | none => []) ++
+    (if pin.custom then [sizeTag "customRefs" kinds.length] ++ (kinds.map fun k => s!"ref:{k}").eraseDups else []) ++
+    (if c.disableGen then ["disableGen"] else []) ++ (if c.onlyTR then ["onlyTR"] else []) ++
+    (if c.hasRef then [] else ["noRef"]) ++ (if b.w.isSome then ["fault:write"] else []) ++
+    (if b.armed then ["fault:read"] else []) ++
+    (if s.rhm.isSome then ["rhm"] else []) ++
+    (if c.hasRevKey then [] else ["guard:noRevKey"]) ++ (if rBare then ["region:selectorlessStable"] else []) ++
+    (if stableBare then ["stableBare"] else []) ++ (if rSame then ["region:sameServiceGateway"] else []) ++
+    (if P.isNone && c.hasRef then ["provider:refused"] else []) ++
+    (if gOutside then ["route:outside-inv"] else []) ++
+    (if pristine then ["walk:pristine"] else [])
+  if call == "initialize" then
+    let e := initializeX P c n
+    let ie ← fBool impl "err"
+    return { model := mkObj [("err", boolJ e)], holds := [],
+             tags := tags ++ [if ie then "init:err" else "init:ok"] }
+  match runCall call P c b n m stableBare with
+  | none => .error s!"trafficx: unknown call {call}"
+  | some o =>
+    let modelled := shapesModelled p nin.refs [cuStrategy s, cuStrategy sAll]
+    if !modelled then tags := tags ++ ["shape:unmodelled"]
+    let model := if modelled then outJ kinds b stableBare o else Json.null
+    if (jopt impl "panic").isSome then
+      -- `no_panicB`: no state, no context, no fault makes a Manager call panic (every attached property fails)
+      let keys := ["C03.x_no_panic", "C04.x_no_panic", "C05.x_no_panic", "C06.x_no_panic", "C07.x_no_panic", "C09.x_no_panic",
+                   "C13.x_no_panic", "C14.x_no_panic", "C15.x_no_panic"] ++
+                  (if rBare then ["C03.x_selectorless_refused", "C09.x_selectorless_refused"] else [])
+      return { model := model, holds := keys.map fun k => (k, false), tags := tags ++ ["panic"] }
+    let io ← outOf p.canary impl
+    tags := tags ++ [if io.done then "res:true" else "res:false", if io.err then "err" else "noerr",
+                     if io.writes.isEmpty then "nowrite" else sizeTag "writes" io.writes.length] ++
+                    (if providerTouched io.writes then ["providerTouched"] else [])
+    -- the provider objects after the call, as the implementation left them
+    let g' := io.net.g
+    let same := sameNet kinds io.net n
+    let clean := cleanB pj g'
+    -- the user's original objects of the walk (when the walk started from a pristine state)
+    let orig ← (match jopt trace "orig" with
+      | none => pure none
+      | some v => do pure (some (← netOf p.canary v)))
+    let mut holds : List (String × Bool) := [("C09.x_no_panic", true), ("C03.x_no_panic", true)]
+    holds := holds ++ [("C05.x_frame", frameX call n io)]
+    -- regression oracle of the fixed finding `selectorlessStable` (`selectorless_refused_oracle`)
+    if rBare then
+      let v := selectorlessRefusedX same m io
+      holds := holds ++ [("C03.x_selectorless_refused", v), ("C09.x_selectorless_refused", v)]
+    -- a configuration whose provider cannot be built (`refused_untouched`): the error instead of completion, no
+    -- provider object touched; in the region of the fixed finding `sameServiceGateway` this IS the full-strength
+    -- form of `C05.x_finalise_restores` / `C07.x_converges` (`sameService_refused`, `gateway_ref_finalise_total`,
+    -- `gateway_ref_converges`): the regression oracle of that finding
+    if P.isNone && ["doTrafficRouting", "finalisingTrafficRouting", "restoreGateway", "routeAllToNew"].contains call then
+      let v := refusedX call c step (sameG kinds io.net n) io
+      holds := holds ++ (["C03", "C04", "C05", "C07"].map fun pid => (pid ++ ".x_refused_untouched", v))
+      if rSame then
+        holds := holds ++ [("C13.x_refused_untouched", v),
+          (if call == "doTrafficRouting" || call == "routeAllToNew" then "C07.x_converges" else "C05.x_finalise_restores", v)]
+    -- a read that failed with a non-NotFound error (reported by the harness' client) is reported by the call
+    let iReadFailed ← fBool impl "readFailed"
+    if iReadFailed then tags := tags ++ ["readFailed"]
+    holds := holds ++ [("C05.x_read_fault_reported", readFaultReportedX iReadFailed io),
+                       ("C06.x_read_fault_reported", readFaultReportedX iReadFailed io)]
+    -- provider-specific specs of the members, judged on the implementation's objects
+    let specs (st : Strat) : List (String × Bool) :=
+      (if p.custom then [("C15.x_routed", cuSpecB p.codec st g'.1)] ++
+         (match orig with
+          | some on => if pristine && modelled then
+              [("C15.x_stateless", cuStatelessB p.codec st (on.refs.filterMap fun r => r.obj.map fun o => (r.script, o)) g'.1)] else []
+          | none => []) else []) ++
+      (match p.ingress with
+        | some (some cls) =>
+          let cfg : RV.Ingress.Cfg := ⟨cls, p.ingName, p.stable, p.canary⟩
+          [("C14.x_routed", igSpecB cfg st g'.2.1)] ++ (if pristine then [("C14.x_fresh", igFreshB cfg st g'.2.1)] else [])
+        | _ => []) ++
+      (if pj.gateway then [("C13.x_routed", gwSpecB ⟨p.stable, p.canary⟩ st g'.2.2)] else [])
+    if call == "doTrafficRouting" then
+      let sp := specB pj s g'
+      holds := holds ++ [("C03.x_done_means_routed", doneMeansRoutedX c step sp io),
+                         ("C03.x_services_before_routes", servicesBeforeRoutesX c n io && (providerTouched io.writes || sameG kinds io.net n)),
+                         ("C04.x_services_before_routes", servicesBeforeRoutesX c n io && (providerTouched io.writes || sameG kinds io.net n)),
+                         ("C07.x_fixed_point", fixedPointX (prevDone && b.w.isNone && !b.armed) same m io),
+                         ("C07.x_converges", convergesX (if healthy then streak else 0) (provBound + 1) io)]
+      if !p.custom then holds := holds ++ [("C07.x_done_no_write", doneNoWriteX same m io)]
+      if io.done && c.hasRef && step then
+        holds := holds ++ specs s
+        tags := tags ++ ["done:routed"]
+      if io.done && c.hasRef && !step then tags := tags ++ ["done:nothing-to-route"]
+      -- composite: no member is skipped in a round without error that reached the provider
+      if c.hasRef && step && !io.err && (providerTouched io.writes || io.done) && (mkProvider p).isSome then
+        let ranC := !p.custom || !modelled ||
+          memberRanB (cuProvider p.codec)
+            (fun a b => (RV.Drv.Custom.objsJson a).compress == (RV.Drv.Custom.objsJson b).compress) s n.g.1 g'.1
+        let ranI := match p.ingress with
+          | some (some cls) => memberRanB (igProvider ⟨cls, p.ingName, p.stable, p.canary⟩)
+              (fun a b => (worldJ a).compress == (worldJ b).compress) s n.g.2.1 g'.2.1
+          | _ => true
+        let ranG := !p.gateway || memberRanB (gwProvider ⟨p.stable, p.canary⟩) (fun a b => decide (a = b)) s n.g.2.2 g'.2.2
+        holds := holds ++ [("C03.x_composite_all_members", ranC && ranI && ranG)]
+        if (providerList p).length > 1 then tags := tags ++ ["composite:round"]
+    if call == "routeAllToNew" then
+      -- with a grace period of 0 the caller does not wait for the routes to be verified ("no need to wait")
+      if c.hasRef && !io.done && !io.err && c.graceSec != 0 then
+        holds := holds ++ [("C03.x_route_all", specB pj sAll g')] ++ specs sAll
+    if call == "finalisingTrafficRouting" then
+      holds := holds ++ [("C04.x_finalising_order", finalisingOrderX c clean io),
+                         ("C05.x_finalising_order", finalisingOrderX c clean io),
+                         ("C04.x_grace_separates", graceSeparatesX c io),
+                         ("C05.x_grace_separates", graceSeparatesX c io),
+                         ("C07.x_fixed_point", fixedPointX (prevDone && b.w.isNone && !b.armed) same m io),
+                         ("C07.x_converges", convergesX streak 9 io)]
+    if call == "finalisingTrafficRouting" || call == "restoreGateway" then
+      let complete := c.hasRef && !io.err && (if call == "restoreGateway" then !io.done else io.done)
+      if complete then
+        tags := tags ++ ["finalise:complete"]
+        -- the members' own clean-up clauses
+        holds := holds ++
+          (if p.custom then [("C15.x_clean", cuCleanB g'.1)] else []) ++
+          (match p.ingress with | some (some _) => [("C14.x_clean", igCleanB g'.2.1)] | _ => []) ++
+          (if pj.gateway then [("C13.x_clean", gwCleanB ⟨p.stable, p.canary⟩ g'.2.2)] else [])
+        -- restored to what the user had
+        match orig with
+        | some on =>
+          if pristine then
+            tags := tags ++ ["finalise:restored-checked"]
+            let rs :=
+              (if p.custom && modelled then [("C15.x_restored", cuRestoredB (on.refs.filterMap (·.obj)) g'.1 ||
+                  decide (g'.1.map (·.obj) = on.net.g.1.map (·.obj)))] else []) ++
+              (match p.ingress with | some (some _) => [("C14.x_restored", decide (g'.2.1.stable = on.net.g.2.1.stable))] | _ => []) ++
+              (if p.gateway then [("C13.x_restored", gwRestoredB ⟨p.stable, trafficCanary⟩ on.net.g.2.2 g'.2.2 ||
+                  decide (g'.2.2 = on.net.g.2.2))] else [])
+            holds := holds ++ rs ++ [("C05.x_finalise_restores", rs.all (·.2))]
+        | none => pure ()
+    -- a read fault inside the provider's Finalise (not the stable Service `Get`, which is the first one of
+    -- `FinalisingTrafficRouting`), no write fault: at most the member that hit it is left unclean
+    let inProvider := call == "restoreGateway" ||
+      (call == "finalisingTrafficRouting" && (match b.r with | some k => decide (k ≥ 2) | none => false))
+    if inProvider && iReadFailed && b.w.isNone && c.hasRef && P.isSome then
+      tags := tags ++ ["finalise:read-fault-in-provider"]
+      holds := holds ++ [("C05.x_finalise_continues", finaliseContinuesB pj g'),
+                         ("C06.x_finalise_continues", finaliseContinuesB pj g')]
+    if ["restoreStableService", "restoreGateway", "removeCanaryService", "patchStableService"].contains call then
+      holds := holds ++ [("C05.x_task_post", taskPostX call c clean io)]
+    return { model := model, holds := RV.Drv.Custom.mergeHolds holds, tags := tags.eraseDups }
+
+def handleGrace (inp impl : Json) : R OpResult := do
+  let refs ← (← fArr inp "refs").mapM jint
+  let d ← fInt inp "dflt"
+  let r := getGraceSeconds refs d
+  let _ := impl
+  return { model := intJ r, holds := [],
+           tags := ["op:grace", sizeTag "refs" refs.length] ++ (if refs.isEmpty then ["trivial"] else []) }
+
+def handle : Handler := fun op inp impl =>
+  match op with
+  | "call" => handleCall inp impl
+  | "grace" => handleGrace inp impl
+  | _ => .error s!"trafficx: unknown op {op}"
+
 end RV.Drv.TrafficX
